@@ -695,6 +695,11 @@ func TestVerifC15(t *testing.T) {
 	if only := os.Getenv("VERIF_C15_ONLY"); only != "" {
 		// replay: one script, e.g. "1 df st" or "slow 0 df ua:1 dr dr"
 		f := strings.Fields(only)
+		if f[0] == "start" {
+			up, _ := strconv.Atoi(f[1])
+			o.line(fmt.Sprintf("supervisor-start %d cs", up), runStart(up))
+			return
+		}
 		slow := f[0] == "slow"
 		rej := f[0] == "rej"
 		if slow || rej {
@@ -750,8 +755,101 @@ func TestVerifC15(t *testing.T) {
 	}
 
 	if os.Getenv("VERIF_C15_ONLY") == "" {
+		// devices created by Driver.Start from the registered devices, with the operating state EdgeX has on record
+		// (a device recorded Down must be reported Up when its reader accepts the connection; one recorded Up must not)
+		for _, up := range []int{0, 1} {
+			r := ""
+			for try := 0; try < 3; try++ {
+				r = runStart(up)
+				if !strings.HasPrefix(r, "inconclusive:") && !strings.HasPrefix(r, "timeout:") {
+					break
+				}
+			}
+			o.line(fmt.Sprintf("supervisor-start %d cs", up), r)
+		}
 		vTrySend(t, o)
 	}
+}
+
+// runStart: Driver.Start with one registered device whose recorded state is Down (up=0) or Up (up=1) and whose reader
+// accepts the connection and the service's configuration; then Stop. The observation has the shape of the script `cs`.
+func runStart(up int) (obs string) {
+	defer func() {
+		if r := recover(); r != nil {
+			obs = fmt.Sprintf("panic:%v", r)
+		}
+	}()
+	w := newWorld(false)
+	defer w.cleanup()
+	if err := w.listen(0, true); err != nil {
+		return "inconclusive:listen:" + err.Error()
+	}
+	host, port, _ := net.SplitHostPort(w.addrs[0].tcp)
+	st := contract.OperatingState(contract.Down)
+	if up != 0 {
+		st = contract.Up
+	}
+	w.d.svc.(*mocks.DeviceServiceSDK).On("Devices").Return([]contract.Device{{Name: w.name, OperatingState: st,
+		Protocols: map[string]contract.ProtocolProperties{"tcp": {"host": host, "port": port}}}})
+	if err := w.d.Start(); err != nil {
+		return "inconclusive:start:" + err.Error()
+	}
+	w.d.devicesMu.RLock()
+	w.dev = w.d.activeDevices[w.name]
+	w.d.devicesMu.RUnlock()
+	if w.dev == nil {
+		return "nodevice"
+	}
+	var conn net.Conn
+	select {
+	case conn = <-w.conns[0]:
+	case <-time.After(vDeadline):
+		return "timeout:no-connection"
+	}
+	w.open = append(w.open, conn)
+	td, err := llrp.NewReaderOnlyTestDevice(conn, true)
+	if err != nil {
+		return "inconclusive:testdevice:" + err.Error()
+	}
+	established := make(chan struct{})
+	var once sync.Once
+	td.SetResponse(llrp.MsgSetReaderConfig, &vresp{inner: &llrp.SetReaderConfigResponse{}, fn: func() { once.Do(func() { close(established) }) }})
+	go func() {
+		defer func() { _ = recover() }()
+		td.ImpersonateReader()
+	}()
+	select {
+	case <-established:
+	case <-time.After(vDeadline):
+		return "timeout:not-established"
+	}
+	// the service's own set-up ends with the Up report when the device was not Up: give it time either way
+	for t0 := time.Now(); time.Since(t0) < 400*time.Millisecond; time.Sleep(2 * time.Millisecond) {
+		w.mu.Lock()
+		n := len(w.reports)
+		w.mu.Unlock()
+		if n > 0 {
+			break
+		}
+	}
+	ctx, cancel := context.WithTimeout(context.Background(), time.Second)
+	_ = w.dev.Stop(ctx)
+	cancel()
+	time.Sleep(60 * time.Millisecond)
+	extra := 0
+	select {
+	case c := <-w.conns[0]:
+		c.Close()
+		extra = 1
+	default:
+	}
+	w.mu.Lock()
+	reports := append([]string(nil), w.reports...)
+	w.mu.Unlock()
+	if extra != 0 {
+		return vobs([]int{0, 0}, reports, false, 0)
+	}
+	return vobs([]int{0}, reports, true, 0)
 }
 
 // ---------------------------------------------------------------- TrySend
